@@ -1,4 +1,3 @@
-import Ntrip.Guards.Apps
 import Ntrip.Properties.C11
 import Ntrip.Properties.C03
 /-!
@@ -84,12 +83,5 @@ theorem output_is_the_valid_frames (crc : Bytes → Nat) (segs : List Seg) (tail
 /-! Non-vacuity (tests). -/
 example : rtcmBytes [{ typ := -1, raw := [1, 2] }, { typ := 1005, raw := [0xD3, 0] }, { typ := -1, raw := [9] }] = [0xD3, 0] := by
   decide
-
-/-- Tie T1: the only thing `writeRTCMMessages` writes is the raw data of a message. -/
-theorem tie_handover :
-    Gen.sent_filter_writeRTCMMessages = some ["writer.Write(message.RawData)"] := by decide
-
-/-- Tie T1 (guards): the conditions of rtcmfilter: which messages `writeRTCMMessages` skips, which consumers `HandleMessages` starts. -/
-theorem tie_guards_filter : type_of% Ntrip.Guards.filter := Ntrip.Guards.filter
 
 end Ntrip.C10
